@@ -15,7 +15,7 @@ META = {
     "bounds": {"quick": "polynomial vector fields of total degree <=2 in (u, u', t) with SYMBOLIC coefficients, symbolic "
                         "initial values and initial time; d<=2; ODE order 1 and 2; k<=3 derivatives (doubling: 1-2 doublings); "
                         "flat and dict-pytree states",
-               "thorough": "degree <=3, d<=3, k<=5 (doubling: 3 doublings)"},
+               "thorough": "degree <=3, d<=3, k<=5 (doubling: 2 doublings)"},
     "assumptions": ["A1 reals", "A6 polynomial vector fields (every coefficient symbolic, so every polynomial field of the "
                     "stated degree is covered at once)"],
     "outside": ["non-polynomial vector fields", "k above the bound", "jetexpand_residual (Gauss-Newton iteration; its "
@@ -38,7 +38,7 @@ def cases(tier):
                     out.append(f"{r}/o{order}/{auto}/k{k}/d{d}/flat")
         out.append(f"{r}/o1/time/k2/d2/tree")
         out.append(f"{r}/o2/time/k2/d2/tree")
-    for nd in ((1, 2) if tier == "quick" else (1, 2, 3)):
+    for nd in (1, 2):       # 3 doublings (k=14) is not decided within 40 min
         for auto in ("auto", "time"):
             out.append(f"doubling/o1/{auto}/k{2 ** (nd + 1) - 2}/d{2 if nd < 2 else 1}/flat")
     out.append("doubling/o1/time/k2/d2/tree")
